@@ -148,7 +148,8 @@ def entryFields (e0 : Bytes) : Fields :=
   let fourth := pyFind delim e (third + d)
   { path := pySlice e 0 first, sizeRaw := pySlice e (first + d) second,
     pathEcc := pySlice e (second + d) third, sizeEcc := pySlice e (third + d) fourth,
-    trackOff := fourth + d, stripped := e0.length - e.length }
+    -- (as repaired: without a fourth delimiter there is no ecc track - its offset is the end of the entry)
+    trackOff := if fourth < 0 then (e.length : Int) else fourth + d, stripped := e0.length - e.length }
 
 /-! ## intra-ecc correction of a metadata field -/
 
